@@ -212,7 +212,7 @@ impl Archive {
         let mut blocks = HashSet::new();
         for band_id in band_ids {
             let band = Band::open(&archive, *band_id).await?;
-            let mut iter = band.index().iter_available_hunks().await;
+            let mut iter = band.index().try_iter_available_hunks().await?;
             // A hunk that cannot be read must stop the scan: treating its blocks as
             // unreferenced would let gc delete data that kept bands still use.
             while let Some(hunk) = iter.try_next().await? {
